@@ -63,3 +63,8 @@ CLAIMS["C04"] = (
     "Generated lists go through every export path (in memory, write_out, emmotl2stopgap from table/.em) x reset_index x update_coord and back through every import path, including re-export of a loaded list after update_coordinates; all 14 shared fields, order, half-set parity, motl_idx and the block/label layout are checked. Held on everything explored.",
     "Trusts the harness' pair table (STOPGAP documentation) and oracle.star_tokenize; file tolerance 5e-7.",
 )
+CLAIMS["C03"] = (
+    "property-based differential + round-trip test against elementary rotation matrices and an independent RELION STAR writer/tokenizer",
+    "Generated lists x versions 3.0/3.1/4.0 x pixel sizes x name formats x optics on/off are exported in memory and through files (parsed independently) and imported back; independently written RELION inputs (origins in px/Angstrom, half-set columns, pixel size via column/optics/argument) are imported. One-directional oracles (M_rln R_cc == I, rlnCoordinate == x+shift, shift == -origin/px) catch convention errors that a symmetric round trip would hide. Held on everything explored.",
+    "Conventions fixed in the harness: R_cc = Rz(psi)Rx(theta)Rz(phi), M_rln = Rz(rot)Ry(tilt)Rz(psi); binning 1.0; tolerance 2e-7 on matrices, 5e-7 on file positions.",
+)
